@@ -164,7 +164,9 @@ META = {
              "delivered_to_registered_route); in every quiescent state of a stopped mux all listeners are closed with an error, "
              "no Accept is pending, no connection is parked in routeConn and Run has returned (stopped_mux_fails_accept, "
              "accept_on_closed_listener_errors); Route with a wrong-length prefix is the only panic (route_lookup_exact, "
-             "only_route_panics). Tie: function fingerprints + DRPCHeader regenerated from source; differential runs of the real "
+             "only_route_panics). One listed finding with a counterexample theorem replayed on the code: a client that stalls "
+             "inside the prefix is never closed, not even after Run returned (stalled_connection_counterexample, "
+             "C16-stalled-prefix). Tie: function fingerprints + DRPCHeader regenerated from source; differential runs of the real "
              "ListenMux / HeaderConn against the compiled model on all splits of short streams, all orders of parked header "
              "writes and enumerated / random mux schedules run to quiescence, with direct oracles (byte transparency, routed by "
              "prefix, header once and first, exactly once, Accept fails after stop, no goroutine left).",
@@ -190,6 +192,66 @@ META = {
         note=NOTE_COMMON + "Go runtime semantics of sync/atomic trusted; interleavings inside one quiescence-to-quiescence step are "
              "covered by the model's theorems, not by the trace validation.",
         technique="Lean 4 theorems over an atomic-step model (symbolic execution of call sequences) + regenerated tie + trace validation under a director",
+    ),
+    "C15": dict(
+        text="Full proof for the pool model (drpcpool/pool.go + entry.go as repaired by three fix commits found by this "
+             "proof obligation): for ALL sequences of Put/Take/Close, timer firings, the two callback phases and peer "
+             "close/block/unblock events, any Capacity/KeyCapacity (positive, zero, negative), expiration on or off: both lists "
+             "are duplicate-free with the same members, stored counts equal lengths and every linked entry sits in the list "
+             "registered under its key (lists_consistent); cached <= Capacity, per key <= KeyCapacity, nothing cached when "
+             "negative (bounded); Take returns only an entry that was cached under that key, open, unblocked, with its timer "
+             "not fired, and unlinks it (take_sound); no entry is returned twice (exclusive_handout); every entry is in exactly "
+             "one of cached / handed out / closed by the pool / dropped-because-closed / owned by its expiry callback, never "
+             "handed out and closed, and at quiescence handed out xor closed (ownership, never_handed_out_and_closed, "
+             "ownership_at_quiescence, closed_pool_owns_nothing); unlinking is idempotent (remove_idempotent); the eviction "
+             "loops never dereference a nil head and terminate (no_panic). Tie: fingerprints of the seven pool/list functions + "
+             "trace validation of the real Pool with fake connections under testing/synctest, comparing after every event the "
+             "result, both list walks, both stored counts and who closed what, against the list-level and the pointer-level model.",
+        design_ref="DESIGN.md §6 C15, Appendix A.5, §9-6",
+        note=NOTE_COMMON + "Atomicity of the p.mu critical sections and time.Timer.Stop semantics are assumed; the proofs are about "
+             "the list-level model, the pointer-level list code is covered by the correspondence runs; connection-level "
+             "ownership for protocol-following callers is checked by direct oracles, the theorems are per entry (per Put).",
+        technique="Lean 4 theorems (inductive invariant over all operation/event sequences) + regenerated tie + trace validation under a fake clock",
+    ),
+    "C02": dict(
+        text="Proof, partial: the two guards that implement isolation are proved in full on the models — the manager's dispatch "
+             "decision (deliver only on equal id, lower ids dropped, higher ids never delivered to the current stream) and the "
+             "stream's own guard (a packet with a foreign id or arriving after termination changes nothing, in every state) — "
+             "plus strict growth of client ids. The system-level statement over all interleavings of two endpoints is not a "
+             "theorem: it is explored by the e2e suite with tagged payloads (cross-talk would be seen as a foreign tag).",
+        design_ref="DESIGN.md §6 C02",
+        note=NOTE_COMMON + "Two-endpoint composition explored, not proved.",
+        technique="Lean 4 theorems on dispatch + stream guards; e2e exploration under a director with tagged payloads",
+    ),
+    "C04": dict(
+        text="Proof, partial: on the atomic-step stream model: Cancel terminates an idle stream with the context's error and closes "
+             "the packet buffer; a receive parked in Get then returns that error; SendCancel's lock acquisitions are TryLocks "
+             "and never wait; with a writer active it reports busy. The default-mode hang (send parked in the transport + "
+             "terminal call holding the transition lock + Cancel) is proved reachable and quiescent (cancel_hang_counterexample) "
+             "and replayed on the code: known finding. The watcher goroutine and the peer side are explored by the e2e suite.",
+        design_ref="DESIGN.md §6 C04, §9-7",
+        note=NOTE_COMMON + "Progress is judged as safety at quiescent points.",
+        technique="Lean 4 theorems (symbolic execution of the atomic-step stream model) + e2e exploration under a director; known findings by signature",
+    ),
+    "C06": dict(
+        text="Proof, partial: stream-level theorems for what the server does when a handler returns (after the fix: commit "
+             "5c5c1df found by this obligation): the stream is terminated, every later packet for it returns at once, a reader "
+             "already parked in Put is released by termination; and the counterexample for the old behaviour (reader parked "
+             "forever after a handler returned without draining). The property itself (any history, then a probe) is explored "
+             "by the e2e probe family.",
+        design_ref="DESIGN.md §6 C06, §9-8",
+        note=NOTE_COMMON + "Judged at quiescence with a flowing transport.",
+        technique="Lean 4 theorems on the stream model + e2e exploration (probe after a grid of endings)",
+    ),
+    "C12": dict(
+        text="Proof, partial: stream-level teardown: Cancel (what Manager.Close / termination applies to the active stream) does not "
+             "wait for a writer parked in the transport, and once the closed transport fails that write the sender returns the "
+             "cancel error, releases the lock and its checkFinished finishes the stream and emits the single fin token the "
+             "manager's watcher waits for. Manager goroutines, exactly-once transport close and Serve's wait are explored by the "
+             "e2e close/fault families (goroutine census at quiescence).",
+        design_ref="DESIGN.md §6 C12",
+        note=NOTE_COMMON + "Goroutine census by runtime.Stack.",
+        technique="Lean 4 theorems on the stream model + e2e exploration with Close / faults at every transport step",
     ),
 }
 
